@@ -595,6 +595,77 @@ def rule_r5(facts):
     return r
 
 
+def rule_r6(facts):
+    """The window's finish writes the pending bytes to the sink.  It must run only when the decoding step that fed the
+    window succeeded: after a failed sink write the window has not advanced, so finishing it writes bytes again."""
+    r = report.RuleResult("C12.R6", "the window is finished (written out) only after the decoding step succeeded")
+    n = 0
+    for b in facts.bodies:
+        if b.promoted is not None:
+            continue
+        fins = [blk for blk in b.calls() if (flow.declared(blk.term) or "").endswith("LzBuffer::finish")]
+        if not fins:
+            continue
+        tm = Terms(b)
+        c = cfg(b)
+        fn = short(b.name)
+        for F in fins:
+            recv = tm.of_operand(F.term.args[0])
+            mk = [q for q in _subterms(recv) if q[0] == "call" and q[1].endswith("from_stream")]
+            for K in b.calls():
+                if K.idx == F.idx or F.idx not in c.reachable_from(K.idx):
+                    continue
+                cal = K.term.callee
+                if cal is None or not (cal.target().local or (cal.trait and cal.local)):
+                    continue
+                if K.term.dest.ty.name != "std::result::Result" if hasattr(K.term.dest, "ty") else False:
+                    continue
+                # does K get the same window mutably?
+                shares = False
+                for a in K.term.args:
+                    if a.ty.k == "ref" and a.ty.mut:
+                        ta = tm.of_operand(a)
+                        if mk and any(q == mk[0] for q in _subterms(ta)):
+                            shares = True
+                        elif not mk and ta == recv:
+                            shares = True
+                if not shares or (flow.callee(K.term) or "").endswith("from_stream"):
+                    continue
+                rty = b.locals[K.term.dest.local].ty if not K.term.dest.proj else None
+                if rty is None or rty.name != "std::result::Result":
+                    continue
+                n += 1
+                tests = []
+                for x in b.blocks:
+                    if x.cleanup or x.term.k != "switch":
+                        continue
+                    t = tm.of_operand(x.term.discr)
+                    if t[0] == "discr" and any(q[0] == "call" and len(q) > 3 and q[3] == K.idx for q in _subterms(t)):
+                        tests.append(x)
+                where = pat.where(b, F.idx)
+                if not tests or F.idx in c.reachable_from(K.idx, avoid=[x.idx for x in tests]):
+                    r.bad("%s|finish-unconditional:%s" % (fn, short(flow.callee(K.term) or "").split("::")[-1]),
+                          "the window is finished whatever %s returned: after a failed sink write the same window bytes are written again "
+                          "(and bytes are written after an error)" % short(flow.callee(K.term) or "?"), where)
+                    continue
+                bad = False
+                for x in tests:
+                    tg = dict(x.term.targets)
+                    # Try::branch: 0 = Continue, 1 = Break; a plain Result: 0 = Ok, 1 = Err
+                    err_edges = [tg.get(1)] if 1 in tg else [x.term.otherwise]
+                    for e in err_edges:
+                        if e is not None and F.idx in c.reachable_from(e):
+                            bad = True
+                if bad:
+                    r.bad("%s|finish-after-error:%s" % (fn, short(flow.callee(K.term) or "").split("::")[-1]),
+                          "the window is finished on the error path of %s as well" % short(flow.callee(K.term) or "?"), where)
+                else:
+                    r.ok("path", {"fn": fn, "finish": "only on the success edge of %s" % short(flow.callee(K.term) or "").split("::")[-1]})
+    r.sites = n
+    r.need("decoding steps that precede a window finish (found %d)" % n, n >= 3)
+    return r
+
+
 def _subterms(t, out=None):
     out = [] if out is None else out
     if isinstance(t, tuple):
@@ -608,7 +679,7 @@ def _subterms(t, out=None):
 
 def run(ctx, t0):
     facts = ctx.facts()
-    rules = [rule_r1(facts), rule_r2(facts), rule_r3(facts), rule_r4(facts), rule_r5(facts)]
+    rules = [rule_r1(facts), rule_r2(facts), rule_r3(facts), rule_r4(facts), rule_r5(facts), rule_r6(facts)]
     expl = ("Static: def-use classification of every fallible call's Result over MIR (propagated / matched with an "
             "Err arm that cannot reach a successful return / explicit swallow table), provenance of the counts "
             "returned by raw read/write calls, dominance of flush and write_all over successful returns, and "
